@@ -1,3 +1,5 @@
+//go:build all || c10
+
 package props
 
 import (
@@ -39,19 +41,6 @@ var c10SrcKinds = []string{"RGBA64", "NRGBA64", "RGBA", "NRGBA", "YCbCr444", "YC
 var c10DstKinds = []string{"RGBA64", "RGBA", "NRGBA", "NRGBA64", "opaque"}
 var c10Sizes = [][2]int{{0, 0}, {1, 1}, {1, 9}, {11, 1}, {7, 5}, {33, 17}}
 var c10Origins = [][2]int{{0, 0}, {-3, -2}, {5, 9}}
-
-func c10Hash(c color.Color) color.RGBA64 {
-	r, g, b, a := c.RGBA()
-	h := uint64(r)*0x9E3779B97F4A7C15 ^ uint64(g)*0xC2B2AE3D27D4EB4F ^ uint64(b)*0x165667B19E3779F9 ^ uint64(a)*0x27D4EB2F165667C5
-	h ^= h >> 29
-	h *= 0xBF58476D1CE4E5B9
-	h ^= h >> 32
-	A := uint16(h)
-	if A == 0 {
-		A = 1
-	}
-	return color.RGBA64{R: uint16((h >> 16) % (uint64(A) + 1)), G: uint16((h >> 32) % (uint64(A) + 1)), B: uint16((h >> 48) % (uint64(A) + 1)), A: A}
-}
 
 func c10Fn(name string) (perColor func(color.Color) color.RGBA64, run func(dst draw.Image, src image.Image, par int)) {
 	if name == "hash" {
@@ -357,24 +346,6 @@ func runC10(r *core.Run) {
 	r.Obs("race_pass_cells", raceCells)
 	r.Obs("race_reports", len(reports))
 	c10Races(r, reports, "C10")
-}
-
-// c10Races turns race reports into violations (shared with C11/C15).
-func c10Races(r *core.Run, reports []core.RaceReport, stage string) {
-	for _, rep := range reports {
-		if rep.PrismIn {
-			r.Violate("race", "race: "+rep.Sig, "data race reported by the Go race detector:\n"+truncate(rep.Text, 3000), map[string]any{"race_signature": rep.Sig, "stage": stage})
-		} else {
-			r.Inconclusive("race report without a prism frame (harness race?): " + rep.Sig)
-		}
-	}
-}
-
-func truncate(s string, n int) string {
-	if len(s) > n {
-		return s[:n] + "..."
-	}
-	return s
 }
 
 func c10ParseChild(r *core.Run, out []byte) int64 {
